@@ -908,3 +908,54 @@ package geom
 //@   assert [ring_area] `cx /= 6 * a` a == sa(p[#1]) && len(p[#1]) >= 1
 //@   assert [ring_same] `cx /= 6 * a` allClosed(p) ==> r == p[#1]
 //@   assert [ring_moment] `cx /= 6 * a` allClosed(p) ==> cx == mxTo(p[#1], len(p[#1]) - 1) && cy == myTo(p[#1], len(p[#1]) - 1)
+
+//@ pred ringEnvs(p []Path, bounds []*Bounds) = len(bounds) == len(p) && (forall k int :: 0 <= k && k < len(p) ==> bounds[k] != nil && biteq(*bounds[k], foldPts(emptyB(), p[k], len(p[k]))))
+
+//@ func area
+//@   prop C03
+//@   mode real
+//@   requires [idx] 0 <= i && i < len(p)
+//@   requires [envs] ringEnvs(p, bounds)
+//@   ensures [magnitude] result == abs(sa(r)) || result == -abs(sa(r)) || result == 0
+//@   ensures [single] len(p) == 1 ==> result == abs(sa(r))
+//@   modifies nothing
+//@   loop 1 `for ii := 0; ii < highI; ii++`
+//@     invariant [sum] 0 <= ii && ii <= highI && highI == len(r) - 1 && A == shTerm(r[highI], r[0]) + shTo(r, ii)
+//@     decreases highI - ii
+//@   loop 2 `for _, pp := range r`
+//@     invariant [scan] 0 <= #2 && #2 <= len(r)
+//@   loop 3 `for _, rr := range pWithoutRing`
+//@     invariant [count] 0 <= #3 && #3 <= len(pWithoutRing)
+
+//@ func (mp MultiPolygon) Centroid
+//@   prop C03
+//@   mode real
+//@   modifies nothing
+//@   loop 1 `for _, p := range mp`
+//@     invariant [polys] 0 <= #1 && #1 <= len(mp)
+//@   loop 2 `for i, r := range p`
+//@     invariant [rings] 0 <= #2 && #2 <= len(p) && ringEnvs(p, b)
+//@   loop 3 `for i := 0; i < len(r)-1; i++`
+//@     invariant [moments] 0 <= i && (len(r) >= 1 ? i <= len(r) - 1 : i == 0) && cx == mxTo(r, i) && cy == myTo(r, i)
+//@     decreases len(r) - i
+//@   assert [ring_centroid] `xA += cx * a` cx == mxTo(r, len(r) - 1) / (6 * sa(r)) && cy == myTo(r, len(r) - 1) / (6 * sa(r))
+//@   assert [ring_weight] `xA += cx * a` a == abs(sa(r)) || a == -abs(sa(r)) || a == 0
+
+//@ func (p Polygon) Area
+//@   prop C03
+//@   mode real
+//@   ensures [single_ring] len(p) == 1 ==> result == abs(sa(p[0]))
+//@   ensures [no_rings] len(p) == 0 ==> result == 0
+//@   modifies nothing
+//@   loop 1 `for i, r := range p`
+//@     invariant [envs] 0 <= #1 && #1 <= len(p) && fresh(bounds) && len(bounds) == len(p) && (forall k int :: 0 <= k && k < #1 ==> bounds[k] != nil && fresh(bounds[k]) && biteq(*bounds[k], foldPts(emptyB(), p[k], len(p[k]))))
+//@   loop 2 `for i, r := range p`
+//@     invariant [sum] 0 <= #2 && #2 <= len(p) && ringEnvs(p, bounds) && (#2 == 0 ==> a == 0) && (len(p) == 1 && #2 == 1 ==> a == abs(sa(p[0])))
+
+//@ func (mp MultiPolygon) Area
+//@   prop C03
+//@   mode real
+//@   ensures [nonneg] result >= 0
+//@   modifies nothing
+//@   loop 1 `for _, pp := range mp`
+//@     invariant [count] 0 <= #1 && #1 <= len(mp)
